@@ -102,6 +102,43 @@ Print Assumptions C14_lca_least.
 Print Assumptions C14_lca_comm.
 Print Assumptions C14_lca_assoc.
 
+(* CONJUNCTION IS ASSOCIATIVE: the three groupings are accepted together, declare the same keys, and
+   whenever two groupings both succeed they yield the same mapping and type.  Success itself is NOT
+   grouping-independent (C14_conj_assoc_counterexample: an inner union is type-checked with its own
+   least common ancestor) — observed identically on the implementation. *)
+From TJ.proofs Require Import C14AssocProofs.
+Section C14Assoc.
+Context {T : Type} (N : Num T) (P : prog T) (A : list (list T) -> res (list T)).
+Theorem C14_conj_assoc_wf : forall a b c,
+  wf (TConj [TConj [a; b]; c]) = wf (TConj [a; TConj [b; c]]).
+Proof. exact conj_assoc_wf. Qed.
+Theorem C14_conj_flat_wf : forall a b c,
+  wf (TConj [TConj [a; b]; c]) = wf (TConj [a; b; c]).
+Proof. exact conj_flat_wf. Qed.
+Theorem C14_conj_assoc_keys : forall a b c k,
+  (In k (required_keys (TConj [TConj [a; b]; c])) <-> In k (required_keys (TConj [a; TConj [b; c]]))) /\
+  (In k (output_keys (TConj [TConj [a; b]; c])) <-> In k (output_keys (TConj [a; TConj [b; c]]))).
+Proof. exact conj_assoc_keys. Qed.
+Theorem C14_conj_assoc : forall a b c s d d1 s1 d2 s2,
+  pure a = true -> pure b = true -> pure c = true ->
+  wf (TConj [TConj [a; b]; c]) = true ->
+  run N P A (TConj [TConj [a; b]; c]) s d = (Ok d1, s1) ->
+  run N P A (TConj [a; TConj [b; c]]) s d = (Ok d2, s2) ->
+  dict_equiv d1 d2 /\ s1 = s2.
+Proof. exact (conj_assoc_both N P A). Qed.
+Theorem C14_conj_flat : forall a b c s d d1 s1,
+  pure a = true -> pure b = true -> pure c = true ->
+  wf (TConj [TConj [a; b]; c]) = true ->
+  run N P A (TConj [TConj [a; b]; c]) s d = (Ok d1, s1) ->
+  exists d2, run N P A (TConj [a; b; c]) s d = (Ok d2, s1) /\ dict_equiv d1 d2.
+Proof. exact (conj_flat N P A). Qed.
+End C14Assoc.
+Print Assumptions C14_conj_assoc_wf.
+Print Assumptions C14_conj_flat_wf.
+Print Assumptions C14_conj_assoc_keys.
+Print Assumptions C14_conj_assoc.
+Print Assumptions C14_conj_flat.
+
 (* non-vacuity: a well-formed nested term and an ill-formed one *)
 Example C14_wf_example :
   wf (TComp (TConj [TSelect [0] [0; 1]; TSelect [1] [0; 1]]) (TInit [0; 1])) = true /\
